@@ -32,6 +32,22 @@ claim('C13', 'iosim',
       "Trusted: h5py/tmpfs, the 60-line reference map, the generator's restriction to it-values present in data['it'].",
       'DESIGN.md section 4 (C13)')
 
+claim('C11', 'etsim+iosim',
+      'deterministic simulation: seeded simulated Einstein-Toolkit writer (process decomposition, layouts, crash/restart overlap) + real readers under seeded enumeration order and hash seeds, cell-level ground-truth oracle',
+      "Seeded search over simulated ET runs (1-4 restarts with overlapping iterations, 1-2 levels, 1-30 processes in tensor-product / hierarchical / k-d decompositions, permuted chunk numbering, the 4 file layouts and key variants, empty restarts) read back through the real aurel.reading code under a seeded directory-enumeration order and 3 PYTHONHASHSEED classes. Every returned cell is compared with the writer's ground truth, in which each value encodes (variable, restart, level, iteration, i, j, k). Sampling, not proof.",
+      "Trusted: the etsim writer model reproduces what Carpet writes as far as aurel reads it (validated against the four repository fixtures' attributes); h5py/tmpfs. One recorded known finding (stride change between restarts).",
+      'DESIGN.md section 4 (C11), 3.3')
+claim('C12', 'etsim+iosim',
+      'deterministic simulation: seeded histories of cached/uncached read_data calls on a simulated run, ground-truth oracle + audit of every cache dataset after every call',
+      "Seeded search over histories of 2-8 read_data calls (split_per_it True/False interleaved; iteration/variable/level/restart subsets; tensor names vs component names; biased to partially filled caches) on a simulated multi-restart ET run starting from an empty cache. After every call the returned arrays are compared with ground truth and every dataset of every all_iterations/it_<n>.hdf5 is audited against the (variable, iteration, level, restart) it is filed under, so a poisoned cache is reported at the call that wrote it. Sampling, not proof.",
+      "Trusted: etsim model (as C11), h5py/tmpfs. Only variables present in the simulation are requested.",
+      'DESIGN.md section 4 (C12)')
+claim('C18', 'etsim+iosim',
+      'deterministic simulation: seeded interleaving of a simulated ET writer (output/checkpoint/crash/restart events) with catalogue calls; ground truth, file<->memory round trip and incremental-vs-fresh-scan oracles',
+      "Seeded schedules interleave writer events of a simulated ET run with iterations()/read_iterations()/get_content() calls (skip_last protocol), with simulation names and paths drawn from a hostile token alphabet, 4 layouts, empty restarts, seeded enumeration order and 3 hash seeds. Each returned catalogue is compared with the writer's ground truth, iterations.txt/content.txt are parsed back and compared with what was returned in memory, the incrementally built catalogue is compared with one fresh scan of a pristine copy, and every generated dataset key / file name / .par file is parsed back. Sampling, not proof.",
+      "Trusted: etsim model; call-granularity interleaving is exact only under the documented protocol (skip_last=True while the writer runs). 'overall' is checked independently only in the regular single-stride case.",
+      'DESIGN.md section 4 (C18)')
+
 
 def main():
     props = [json.loads(l) for l in open(os.path.join(VERIF, 'properties.jsonl'))]
